@@ -431,6 +431,9 @@ class TJPTransformer(Transformer[Any, Any]):
 
     # Named task attribute rules
     def task_start(self, items: list[Any]) -> tuple[str, Any]:
+        if isinstance(items[0], Token) and items[0].type == "MACRO_REF":
+            # The preprocessor leaves a reference to a macro nobody defined in the text: it is not a date
+            raise ValueError(f"Undefined macro {items[0]} used as start date (line {items[0].line})")
         return ("start", items[0])
 
     def task_end(self, items: list[Any]) -> tuple[str, Any]:
